@@ -963,20 +963,6 @@ func (c *Conn) handleBdat(arg string) {
 		return
 	}
 
-	if !c.fromReceived || len(c.recipients) == 0 {
-		c.writeResponse(502, EnhancedCode{5, 5, 1}, "Missing RCPT TO command.")
-		return
-	}
-
-	last := false
-	if len(args) == 2 {
-		if !strings.EqualFold(args[1], "LAST") {
-			c.writeResponse(501, EnhancedCode{5, 5, 4}, "Unknown BDAT argument")
-			return
-		}
-		last = true
-	}
-
 	// ParseUint instead of Atoi so we will not accept negative values.
 	size, err := strconv.ParseUint(args[0], 10, 32)
 	if err != nil {
@@ -984,11 +970,31 @@ func (c *Conn) handleBdat(arg string) {
 		return
 	}
 
+	// From here on the client is committed to send size octets (with
+	// pipelining they are already on the wire): they have to be consumed
+	// even if the command is refused, or they would be parsed as commands.
+
+	if !c.fromReceived || len(c.recipients) == 0 {
+		c.writeResponse(502, EnhancedCode{5, 5, 1}, "Missing RCPT TO command.")
+		c.discardChunk(size)
+		return
+	}
+
+	last := false
+	if len(args) == 2 {
+		if !strings.EqualFold(args[1], "LAST") {
+			c.writeResponse(501, EnhancedCode{5, 5, 4}, "Unknown BDAT argument")
+			c.discardChunk(size)
+			return
+		}
+		last = true
+	}
+
 	if c.server.MaxMessageBytes != 0 && c.bytesReceived+int64(size) > c.server.MaxMessageBytes {
 		c.writeResponse(552, EnhancedCode{5, 3, 4}, "Max message size exceeded")
 
 		// Discard chunk itself without passing it to backend.
-		io.Copy(ioutil.Discard, io.LimitReader(c.text.R, int64(size)))
+		c.discardChunk(size)
 
 		c.reset()
 		return
@@ -1094,6 +1100,13 @@ func (c *Conn) handleBdat(arg string) {
 // ErrDataReset is returned by Reader pased to Data function if client does not
 // send another BDAT command and instead closes connection or issues RSET command.
 var ErrDataReset = errors.New("smtp: message transmission aborted")
+
+// discardChunk consumes the payload of a refused BDAT command.
+func (c *Conn) discardChunk(size uint64) {
+	c.lineLimitReader.LineLimit = 0
+	io.Copy(ioutil.Discard, io.LimitReader(c.text.R, int64(size)))
+	c.lineLimitReader.LineLimit = c.server.MaxLineLength
+}
 
 var errPanic = &SMTPError{
 	Code:         421,
